@@ -173,6 +173,63 @@ fn str_roundtrip(n: usize) {
     }
 }
 
+/// non-ASCII characters together with escapes: a multi-byte character on each side of n symbolic characters
+fn str_roundtrip_unicode(n: usize) {
+    let lead = match vrt_choice(3) { 0 => "\u{fc}", 1 => "\u{b0}C", _ => "\u{1F600}" };
+    let mut s = String::from(lead);
+    s.push_str(&vrt_ascii_string(n, STR_ALPHA));
+    s.push_str("\u{e9}");
+    let mut w = Writer::new(0);
+    w.add_quoted_string(&s, 0);
+    let out = w.finish();
+    let body = out.trim_start_matches(' ').to_string();
+    match crate::tokenizer::verif_h::tok_for_harness(&body) {
+        Some(tokens) => {
+            vrt_check(tokens.len() == 1 && tokens[0].endpos == body.len(), "C01 a written string is read back as exactly one token");
+            let filedata = vec![body.clone()];
+            let filenames = vec![Filename::from("f")];
+            let mut log = Vec::new();
+            let mut p = ParserState::new_internal(&tokens, &filedata, &filenames, &mut log, true);
+            match p.get_string(&ctx()) {
+                Ok(back) => vrt_check(back == s, "C01 unescape(escape(s)) == s"),
+                Err(_) => vrt_check(false, "C01 a written string is accepted by get_string"),
+            }
+        }
+        None => vrt_check(false, "C01 a written string tokenizes"),
+    }
+}
+pub(crate) fn h_str_roundtrip_unicode_1() { str_roundtrip_unicode(1); }
+pub(crate) fn h_str_roundtrip_unicode_2() { str_roundtrip_unicode(2); }
+pub(crate) fn h_str_roundtrip_unicode_3() { str_roundtrip_unicode(3); }
+
+/// C01 float text: add_float -> tokenizer -> get_double is the identity on a list of concrete values
+/// (no symbolic float-to-text model exists: the values are enumerated, the code is still executed from MIR)
+const FLOATS: &[f64] = &[0.0, 1.0, -1.0, 0.5, 123.456, 1.2e-5, 1.2e11, -9.87e12, 1e10, 1.0000001e10, 9.999e-5, 1e-4, -1e-4, 1.6e-19, 1e-300,
+    5e-324, 2.2250738585072014e-308, 1.7976931348623157e308, -1.7976931348623157e308, 0.1, 0.30000000000000004, 4294967296.0, 255.0, 65535.0,
+    3.4028234663852886e38, 1e21, 1e22, 123456789012345680.0, 2.220446049250313e-16, 1.1102230246251565e-16];
+
+pub(crate) fn h_float_roundtrip() {
+    let k = vrt_choice(FLOATS.len() as u32) as usize;
+    let v = FLOATS[k];
+    let mut w = Writer::new(0);
+    w.add_float(v, 0);
+    let text = w.finish().trim_start().to_string();
+    match crate::tokenizer::verif_h::tok_for_harness(&text) {
+        Some(tokens) => {
+            vrt_check(tokens.len() == 1 && tokens[0].ttype == A2lTokenType::Number && tokens[0].endpos == text.len(), "C01 a written float is read back as exactly one number token");
+            let filedata = vec![text.clone()];
+            let filenames = vec![Filename::from("f")];
+            let mut log = Vec::new();
+            let mut p = ParserState::new_internal(&tokens, &filedata, &filenames, &mut log, true);
+            match p.get_double(&ctx()) {
+                Ok(back) => vrt_check(back == v, "C01 get_double(add_float(v)) == v"),
+                Err(_) => vrt_check(false, "C01 a written float is accepted by get_double"),
+            }
+        }
+        None => vrt_check(false, "C01 a written float tokenizes"),
+    }
+}
+
 pub(crate) fn h_str_roundtrip_1() { str_roundtrip(1); }
 pub(crate) fn h_str_roundtrip_2() { str_roundtrip(2); }
 pub(crate) fn h_str_roundtrip_3() { str_roundtrip(3); }
